@@ -5,7 +5,7 @@
    (sub-group with an empty list state -> TypeError).
    Statements only; proofs live in Proofs/ToolkitP.v (generic over the metric objects: M, sd =
    state_dict after _prepare_for_merge_state, mrg = clone + merge_state, cmp = compute).
-   [schema_agree g Wg mds order iv tl]: all ranks traverse the same keys and the sync of every
+   [schema_agree fx g Wg mds order iv tl]: all ranks traverse the same keys and the sync of every
    key is ideal (SynclibP.ideal_family, established in C15 for tensor / object / list / dict states
    under the hypotheses stated there: ideal_family_instances). *)
 From Coq Require Import ZArith List Bool String Arith Lia.
@@ -17,42 +17,42 @@ Open Scope list_scope.
 
 (* ---- 1. world of one ---- *)
 Theorem world1_identity :
-  forall (M : Type) (sd : M -> sdict) (mrg : M -> list pseudo_t -> M) (i Wg r : nat) (m : M)
+  forall (M : Type) (sd : M -> sdict) (mrg : M -> list pseudo_t -> M) (fx : fixes) (g : list nat) (i Wg r : nat) (m : M)
          (mc : list (string * M)),
-    get_synced_metric M sd mrg 1 i Wg m = Ret (Ok m) /\
-    get_synced_metric_collection M sd mrg 1 i Wg mc = Ret (Ok mc) /\
-    run_all (respond [r]) [get_synced_metric M sd mrg 1 0 Wg m] = Some [Ok m] /\
-    run_all (respond [r]) [get_synced_metric_collection M sd mrg 1 0 Wg mc] = Some [Ok mc].
+    get_synced_metric M sd mrg fx g 1 i Wg m = Ret (Ok m) /\
+    get_synced_metric_collection M sd mrg fx g 1 i Wg mc = Ret (Ok mc) /\
+    run_all (respond [r]) [get_synced_metric M sd mrg fx [r] 1 0 Wg m] = Some [Ok m] /\
+    run_all (respond [r]) [get_synced_metric_collection M sd mrg fx [r] 1 0 Wg mc] = Some [Ok mc].
 Proof. intros. repeat split. Qed.
 
 (* ---- 2. nobody hangs ---- *)
 Theorem sync_no_mismatch :
   forall (M : Type) (sd : M -> sdict) (mrg : M -> list pseudo_t -> M)
-         (g : list nat) (Wg : nat) (ms : nat -> M) order iv tl,
+         (fx : fixes) (g : list nat) (Wg : nat) (ms : nat -> M) order iv tl,
     let n := List.length g in
-    n <> 1 -> n <= Wg -> schema_agree g Wg (fun i => [(TMP, sd (ms i))]) order iv tl ->
-    run_all (respond g) (map (fun i => get_synced_metric M sd mrg n i Wg (ms i)) (seq 0 n)) <> None.
+    n <> 1 -> n <= Wg -> schema_agree fx g Wg (fun i => [(TMP, sd (ms i))]) order iv tl ->
+    run_all (respond g) (map (fun i => get_synced_metric M sd mrg fx g n i Wg (ms i)) (seq 0 n)) <> None.
 Proof. exact ToolkitP.sync_no_mismatch. Qed.
 
 (* ---- 3. every rank obtains its own metric merged with the others' states ---- *)
 Theorem sync_equals_local_merge :
   forall (M : Type) (sd : M -> sdict) (mrg : M -> list pseudo_t -> M)
-         (g : list nat) (Wg : nat) (ms : nat -> M) order iv tl,
+         (fx : fixes) (g : list nat) (Wg : nat) (ms : nat -> M) order iv tl,
     let n := List.length g in
-    n <> 1 -> n <= Wg -> schema_agree g Wg (fun i => [(TMP, sd (ms i))]) order iv tl ->
+    n <> 1 -> n <= Wg -> schema_agree fx g Wg (fun i => [(TMP, sd (ms i))]) order iv tl ->
     exists gath, gathered_ok n Wg order iv tl gath /\
-      run_all (respond g) (map (fun i => get_synced_metric M sd mrg n i Wg (ms i)) (seq 0 n))
+      run_all (respond g) (map (fun i => get_synced_metric M sd mrg fx g n i Wg (ms i)) (seq 0 n))
       = Some (map (fun i => Ok (mrg (ms i) (others i n (map (pseudo TMP) gath) []))) (seq 0 n)).
 Proof. exact ToolkitP.sync_equals_local_merge. Qed.
 
 Theorem sync_collection_equals_local_merge :
   forall (M : Type) (sd : M -> sdict) (mrg : M -> list pseudo_t -> M)
-         (g : list nat) (Wg : nat) (mcs : nat -> list (string * M)) order iv tl,
+         (fx : fixes) (g : list nat) (Wg : nat) (mcs : nat -> list (string * M)) order iv tl,
     let n := List.length g in
     n <> 1 -> n <= Wg ->
-    schema_agree g Wg (fun i => map (fun km => (fst km, sd (snd km))) (mcs i)) order iv tl ->
+    schema_agree fx g Wg (fun i => map (fun km => (fst km, sd (snd km))) (mcs i)) order iv tl ->
     exists gath, gathered_ok n Wg order iv tl gath /\
-      run_all (respond g) (map (fun i => get_synced_metric_collection M sd mrg n i Wg (mcs i)) (seq 0 n))
+      run_all (respond g) (map (fun i => get_synced_metric_collection M sd mrg fx g n i Wg (mcs i)) (seq 0 n))
       = Some (map (fun i => Ok (map (fun km => (fst km, mrg (snd km) (others i n (map (pseudo (fst km)) gath) [])))
                                     (mcs i))) (seq 0 n)).
 Proof. exact ToolkitP.sync_collection_equals_local_merge. Qed.
@@ -61,21 +61,21 @@ Proof. exact ToolkitP.sync_collection_equals_local_merge. Qed.
    values of the OTHER ranks, in rank order, each in traversal order *)
 Theorem sync_equals_local_merge_exact :
   forall (M : Type) (sd : M -> sdict) (mrg : M -> list pseudo_t -> M)
-         (g : list nat) (Wg : nat) (ms : nat -> M) order iv tl,
+         (fx : fixes) (g : list nat) (Wg : nat) (ms : nat -> M) order iv tl,
     let n := List.length g in
-    n <> 1 -> n <= Wg -> NoDup order -> schema_agree g Wg (fun i => [(TMP, sd (ms i))]) order iv tl ->
-    run_all (respond g) (map (fun i => get_synced_metric M sd mrg n i Wg (ms i)) (seq 0 n))
+    n <> 1 -> n <= Wg -> NoDup order -> schema_agree fx g Wg (fun i => [(TMP, sd (ms i))]) order iv tl ->
+    run_all (respond g) (map (fun i => get_synced_metric M sd mrg fx g n i Wg (ms i)) (seq 0 n))
     = Some (map (fun i => Ok (mrg (ms i) (map (ideal_pseudo order iv)
                                               (filter (fun r => negb (Nat.eqb r i)) (seq 0 n))))) (seq 0 n)).
 Proof. exact ToolkitP.sync_equals_local_merge_exact. Qed.
 
 Theorem sync_collection_equals_local_merge_exact :
   forall (M : Type) (sd : M -> sdict) (mrg : M -> list pseudo_t -> M)
-         (g : list nat) (Wg : nat) (mcs : nat -> list (string * M)) order iv tl,
+         (fx : fixes) (g : list nat) (Wg : nat) (mcs : nat -> list (string * M)) order iv tl,
     let n := List.length g in
     n <> 1 -> n <= Wg -> NoDup order ->
-    schema_agree g Wg (fun i => map (fun km => (fst km, sd (snd km))) (mcs i)) order iv tl ->
-    run_all (respond g) (map (fun i => get_synced_metric_collection M sd mrg n i Wg (mcs i)) (seq 0 n))
+    schema_agree fx g Wg (fun i => map (fun km => (fst km, sd (snd km))) (mcs i)) order iv tl ->
+    run_all (respond g) (map (fun i => get_synced_metric_collection M sd mrg fx g n i Wg (mcs i)) (seq 0 n))
     = Some (map (fun i => Ok (map (fun km => (fst km, mrg (snd km)
                    (others i n (map (pseudo (fst km)) (ideal_gath n Wg order iv tl)) []))) (mcs i))) (seq 0 n)).
 Proof. exact ToolkitP.sync_collection_equals_local_merge_exact. Qed.
@@ -87,12 +87,12 @@ Proof. exact ToolkitP.sync_collection_equals_local_merge_exact. Qed.
    gathered value of rank j's state s (tensor / list / sorted dict / object as it is). *)
 Theorem sync_equals_local_merge_structural :
   forall (M : Type) (sd : M -> sdict) (mrg : M -> list pseudo_t -> M)
-         (g : list nat) (Wg : nat) (ms : nat -> M) (names : list string),
+         (fx : fixes) (g : list nat) (Wg : nat) (ms : nat -> M) (names : list string),
     let n := List.length g in
     n > 1 -> n <= Wg -> NoDup names ->
     (forall i, i < n -> map fst (sort_keys (sd (ms i))) = names) ->
-    (forall s, In s names -> exists ss, (forall i, i < n -> assoc s (sd (ms i)) = Some (ss i)) /\ kind_ok g ss) ->
-    run_all (respond g) (map (fun i => get_synced_metric M sd mrg n i Wg (ms i)) (seq 0 n))
+    (forall s, In s names -> exists ss, (forall i, i < n -> assoc s (sd (ms i)) = Some (ss i)) /\ kind_ok fx g ss) ->
+    run_all (respond g) (map (fun i => get_synced_metric M sd mrg fx g n i Wg (ms i)) (seq 0 n))
     = Some (map (fun i => Ok (mrg (ms i)
                (map (fun j => map (fun s => (s, state_iv (fun i => sd (ms i)) (TMP, s) j)) names)
                     (filter (fun r => negb (Nat.eqb r i)) (seq 0 n))))) (seq 0 n)).
@@ -100,13 +100,13 @@ Proof. exact ToolkitP.sync_equals_local_merge_structural. Qed.
 
 Theorem sync_and_compute_equals_local_merge :
   forall (M Out : Type) (sd : M -> sdict) (mrg : M -> list pseudo_t -> M) (cmp : M -> Out)
-         (g : list nat) (Wg : nat) (ms : nat -> M) order iv tl,
+         (fx : fixes) (g : list nat) (Wg : nat) (ms : nat -> M) order iv tl,
     let n := List.length g in
-    n <> 1 -> n <= Wg -> schema_agree g Wg (fun i => [(TMP, sd (ms i))]) order iv tl ->
+    n <> 1 -> n <= Wg -> schema_agree fx g Wg (fun i => [(TMP, sd (ms i))]) order iv tl ->
     exists gath, gathered_ok n Wg order iv tl gath /\
-      run_all (respond g) (map (fun i => sync_and_compute M Out sd mrg cmp n i Wg (ms i)) (seq 0 n))
+      run_all (respond g) (map (fun i => sync_and_compute M Out sd mrg cmp fx g n i Wg (ms i)) (seq 0 n))
       = Some (map (fun i => Ok (cmp (mrg (ms i) (others i n (map (pseudo TMP) gath) [])))) (seq 0 n)) /\
-      run_all (respond g) (map (fun i => get_synced_state_dict M sd mrg n i Wg (ms i)) (seq 0 n))
+      run_all (respond g) (map (fun i => get_synced_state_dict M sd mrg fx g n i Wg (ms i)) (seq 0 n))
       = Some (map (fun i => Ok (sd (mrg (ms i) (others i n (map (pseudo TMP) gath) [])))) (seq 0 n)).
 Proof. exact ToolkitP.sync_and_compute_spec. Qed.
 
@@ -120,25 +120,25 @@ Definition ex_iv (k : key) (j : nat) : gs :=
   if String.eqb (snd k) "o" then GO (VZ (Z.of_nat j)) else GT (ex_ts j).
 
 Example schema_agree_example :
-  schema_agree [0;1;2] 3 (fun i => [(TMP, base (ex_m i))]) [(TMP,"o"); (TMP,"t")] ex_iv (fun _ => GEmpty).
+  schema_agree V_code [0;1;2] 3 (fun i => [(TMP, base (ex_m i))]) [(TMP,"o"); (TMP,"t")] ex_iv (fun _ => GEmpty).
 Proof.
-  assert (Hok : dst_ok [0;1;2] None) by exact I.
+  assert (Hok : dst_ok V_code [0;1;2] None) by exact I.
   split.
   - intros i Hi. destruct i as [|[|[|i]]]; try reflexivity; cbn in Hi; lia.
   - intros k [<-|[<-|[]]].
     + exists (fun i => SObj (VZ (Z.of_nat i))). split.
       * intros i Hi. destruct i as [|[|[|i]]]; try reflexivity; cbn in Hi; lia.
-      * apply (ideal_obj [0;1;2] None 3 (fun i => VZ (Z.of_nat i))); [cbn; lia|exact Hok].
+      * apply (ideal_obj V_code [0;1;2] None 3 (fun i => VZ (Z.of_nat i))); [cbn; lia|exact Hok].
     + exists (fun i => STensor (ex_ts i)). split.
       * intros i Hi. destruct i as [|[|[|i]]]; try reflexivity; cbn in Hi; lia.
-      * apply (ideal_tensor [0;1;2] None 3 ex_ts 2 0%Z); [cbn; lia|exact Hok|].
+      * apply (ideal_tensor V_code [0;1;2] None 3 ex_ts 2 0%Z); [cbn; lia|exact Hok|].
         intros i Hi. destruct i as [|[|[|i]]]; try (cbn in Hi; lia); repeat split; cbn; auto.
 Qed.
 
 Example structural_hypotheses_example :
   (forall i, i < 3 -> map fst (sort_keys (base (ex_m i))) = ["o"; "t"]) /\
   (forall s, In s ["o"; "t"] -> exists ss, (forall i, i < 3 -> assoc s (base (ex_m i)) = Some (ss i)) /\
-                                          kind_ok [0;1;2] ss).
+                                          kind_ok V_code [0;1;2] ss).
 Proof.
   split; [intros i _; reflexivity|].
   intros s [<-|[<-|[]]].
@@ -151,7 +151,7 @@ Qed.
 
 Example sync_three_ranks_example :
   let ps (j : nat) : pseudo_t := [("o", GO (VZ (Z.of_nat j))); ("t", GT (ex_ts j))] in
-  run_all (respond [0;1;2]) (map (fun i => get_synced_metric mobj base mobj_mrg 3 i 3 (ex_m i)) (seq 0 3))
+  run_all (respond [0;1;2]) (map (fun i => get_synced_metric mobj base mobj_mrg V_code [0;1;2] 3 i 3 (ex_m i)) (seq 0 3))
   = Some [Ok (mkM (base (ex_m 0)) (Some [ps 1; ps 2]));
           Ok (mkM (base (ex_m 1)) (Some [ps 0; ps 2]));
           Ok (mkM (base (ex_m 2)) (Some [ps 0; ps 1]))].
@@ -164,18 +164,28 @@ Definition v1 (l : list Z) : tensor := mkT 0 [List.length l] (TArr (map (fun z =
 (* D10: a state that is a scalar on one rank and 1-D on the other: the ranks issue different
    collectives (all_gather of the tensor vs all_gather of its shape) -> mismatch / hang *)
 Theorem sync_refuted_ndim :
+  forall fx : fixes,
   run_all (respond [0;1])
-    (map (fun i => get_synced_metric mobj base mobj_mrg 2 i 2
+    (map (fun i => get_synced_metric mobj base mobj_mrg fx [0;1] 2 i 2
                      (mkM [("s", STensor (nth i [sc 1; v1 [1;2]%Z] (sc 0)))] None)) (seq 0 2))
   = None.
-Proof. vm_compute. reflexivity. Qed.
+Proof. intros fx. vm_compute. reflexivity. Qed.
 
 (* D9: sub-group [1;2] of a world of 3, list state empty on the first member only: TypeError *)
 Theorem sync_refuted_subgroup_root :
   run_all (respond [1;2])
-    (map (fun i => get_synced_metric mobj base mobj_mrg 2 i 3
+    (map (fun i => get_synced_metric mobj base mobj_mrg V_code [1;2] 2 i 3
                      (mkM [("inputs", SList (nth i [[]; [v1 [1;2]%Z]] []))] None)) (seq 0 2))
   = Some [Exc "TypeError"; Exc "TypeError"].
+Proof. vm_compute. reflexivity. Qed.
+
+(* D9 repaired: on the sub-group [1;2] both members obtain their metric merged with the other's *)
+Theorem sync_subgroup_root_fixed :
+  let st i := [("inputs", SList (nth i [[]; [v1 [1;2]%Z]] []))] in
+  run_all (respond [1;2])
+    (map (fun i => get_synced_metric mobj base mobj_mrg V_fixed [1;2] 2 i 3 (mkM (st i) None)) (seq 0 2))
+  = Some [Ok (mkM (st 0) (Some [[("inputs", GL [v1 [1;2]%Z])]]));
+          Ok (mkM (st 1) (Some [[("inputs", GL [])]]))].
 Proof. vm_compute. reflexivity. Qed.
 
 Print Assumptions world1_identity.
@@ -188,3 +198,4 @@ Print Assumptions sync_equals_local_merge_structural.
 Print Assumptions sync_and_compute_equals_local_merge.
 Print Assumptions sync_refuted_ndim.
 Print Assumptions sync_refuted_subgroup_root.
+Print Assumptions sync_subgroup_root_fixed.
